@@ -20,7 +20,8 @@ def main(tier):
             "one Dedent per open level and both line kinds end in a newline token (R-INDENT). "
             "Not decided: longest-match results on every string; name/number classification beyond table equality."))
     r = cx.repo
-    chk.run("R-TOKTABLE", K.toktable, r, floor=65)
+    chk.run("R-TOKTABLE", K.toktable, r, floor=55)
+    chk.run("R-NUMEXAMPLES", K.numexamples, r, floor=12)
     chk.run("R-NAMEREGEX", K.nameregex, r, floor=3)
     chk.run("R-TOKSKIP", K.tokskip, r, floor=60)
     chk.run("R-TOKTIE", K.toktie, r, floor=3)
